@@ -7,5 +7,5 @@ Q(qn) == [short |-> FALSE, qr |-> FALSE, op |-> 0, qd |-> 1, qok |-> TRUE, body 
           src |-> <<127, 0, 0, 1>>, qname |-> qn, loose |-> FALSE]
 MC_Canaries == {Q(<<x, a, z>>), Q(<<42, a, z>>), Q(<<x, o>>), Q(<<z>>)}
 MC_Kinds == {"frontdoor", "big65535", "big512", "zero-datagram", "one-octet", "response-flag", "tcp-bytewise",
-             "tcp-close-midframe", "tcp-pipelined-late"}
+             "tcp-close-midframe", "tcp-pipelined-late", "axfr-vs-update"}
 =============================================================================
